@@ -60,7 +60,7 @@ Section Oracles.
   Proof. exact (list_order simple astr mredir cdres injrisk rulematch). Qed.
   (* any list node at all, cd included: each part judged in the directory it runs in *)
   Theorem C03_list_cd : forall c ss fs ks, let t := T $"list" ss fs ks in
-    walk c t = combine (map (fun p => walk (fst p) (snd p)) (seq_ctxs cdres c (seq_parts t))).
+    walk c t = combine (map (fun p => walk (fst p) (snd p)) (seq_ctxs cdres (init_state c) (list_items t))).
   Proof. exact (list_join_cd simple astr mredir cdres injrisk rulematch). Qed.
 
   (* ! time function coproc subshell brace-group, nested to any depth *)
@@ -83,7 +83,7 @@ Section Oracles.
   Theorem C03_for : forall c ss fs ks, let t := T $"for" ss fs ks in
     let cb := body_ctx c (match child "body" t with Some x => changes_directory x | None => false end) in
     walk c t = combine (need simple astr mredir cdres injrisk rulematch cb (child "body" t) ::
-                        wparts simple astr mredir cdres injrisk rulematch c (children "words" t) ++
+                        wpartsb simple astr mredir cdres injrisk rulematch true c (children "words" t) ++
                         redirs_of simple astr mredir cdres injrisk rulematch c t).
   Proof. exact (walk_for simple astr mredir cdres injrisk rulematch). Qed.
   Theorem C03_case : forall c ss fs ks, let t := T $"case" ss fs ks in
@@ -91,6 +91,11 @@ Section Oracles.
                         pats simple astr mredir cdres injrisk rulematch c (children "patterns" t) ++
                         redirs_of simple astr mredir cdres injrisk rulematch c t).
   Proof. exact (walk_case simple astr mredir cdres injrisk rulematch). Qed.
+  (* ... where the items are all judged in the directory of the case itself unless an earlier item both falls
+     through (";&", ";;&") and changes directory *)
+  Theorem C03_case_items : forall c l, (snd c = true \/ Forall (fun p => item_moves p = false) l) ->
+    pats simple astr mredir cdres injrisk rulematch c l = flat_map (fun p => r_pat (ev p) c) l.
+  Proof. exact (pats_plain simple astr mredir cdres injrisk rulematch). Qed.
   Theorem C03_subshell : forall c ss fs ks, let t := T $"subshell" ss fs ks in
     walk c t = combine (need simple astr mredir cdres injrisk rulematch c (child "body" t) :: redirs_of simple astr mredir cdres injrisk rulematch c t).
   Proof. exact (walk_subshell simple astr mredir cdres injrisk rulematch). Qed.
@@ -99,7 +104,7 @@ Section Oracles.
      words (and the injection-risk rule), joined - no early exit *)
   Theorem C03_simple : forall c ss fs ks, let t := T $"command" ss fs ks in
     walk c t = combine (wparts simple astr mredir cdres injrisk rulematch c (children "words" t) ++
-                        cmd_inj injrisk c t ++
+                        cmd_env t ++ cmd_names astr c t ++ cmd_inj injrisk c t ++
                         redirs_of simple astr mredir cdres injrisk rulematch c t ++
                         cmd_proper simple rulematch c t).
   Proof. exact (walk_command simple astr mredir cdres injrisk rulematch). Qed.
@@ -116,6 +121,7 @@ Print Assumptions C03_while.
 Print Assumptions C03_until.
 Print Assumptions C03_for.
 Print Assumptions C03_case.
+Print Assumptions C03_case_items.
 Print Assumptions C03_subshell.
 Print Assumptions C03_simple.
 
